@@ -1,5 +1,7 @@
 (* Props/C02.v — Apply does exactly what the plan says and nothing else.  Statements only. *)
+From Coq Require Import List Permutation.
 From RN Require Import Base.Bytes Model.Edits Model.Fs Model.ApplyModel Proofs.EditsP Proofs.RenameP Proofs.RenameP2.
+From RN Require Import Proofs.ApplySpecP.
 
 (* the reverse-order loop of apply.rs equals the left-to-right reference splice on every
    well-formed edit list: any number of edits per file and per line, replacements shorter or
@@ -42,6 +44,67 @@ Theorem C02_rename_stage_fs : forall rs t,
     /\ (forall q, lookup t q = None -> avoids rs q -> lookup (s_fs s') (final_path rs q) = None).
 Proof. exact rename_stage_fs. Qed.
 
+(* THE COMPOSITION: for every plan and tree satisfying plan_ok (Proofs/ApplySpecP.v: distinct keys; every hunk's file is a
+   regular file with UTF-8 content on which the file's edits, sorted, are well formed; its temp name is absent; the renames
+   satisfy the hypotheses of C02_rename_stage_fs) the fault-free run of the model of apply_plan succeeds and leaves exactly
+   the reference meaning of the plan, spec_apply p t, as a finite map (a permutation of the association list with distinct
+   keys: the content stage re-inserts a rewritten file at the head, so list equality is false, ApplySpecP.Witness.list_equality_refuted),
+   and r_performed lists every planned rename once, in execution order, re-based *)
+Theorem C02_apply_is_spec : forall p t, plan_ok p t ->
+  r_ok (apply_core no_fault p t) = true /\
+  r_fail (apply_core no_fault p t) = None /\
+  Permutation (r_fs (apply_core no_fault p t)) (spec_apply p t) /\
+  NoDup (keys (spec_apply p t)) /\
+  NoDup (keys (r_fs (apply_core no_fault p t))) /\
+  (forall q, lookup (r_fs (apply_core no_fault p t)) q = lookup (spec_apply p t) q) /\
+  r_performed (apply_core no_fault p t) = stage_perf (sort_renames (ap_renames p)) [].
+Proof. exact apply_is_spec. Qed.
+
+(* "and nothing else": a path that is neither edited nor at or below a renamed path keeps its node; nothing appears *)
+Theorem C02_bystander_untouched : forall p t q n,
+  plan_ok p t -> lookup t q = Some n ->
+  (forall h, In h (ap_hunks p) -> ah_file h <> q) ->
+  (forall r, In r (ap_renames p) -> path_prefix (ar_path r) q = false) ->
+  lookup (r_fs (apply_core no_fault p t)) q = Some n.
+Proof. exact apply_bystander. Qed.
+
+Theorem C02_nothing_appears : forall p t q,
+  plan_ok p t -> lookup t q = None ->
+  (forall r, In r (ap_renames p) -> path_prefix (ar_path r) q = false) ->
+  (forall r, In r (ap_renames p) -> path_prefix (ar_new r) q = false) ->
+  lookup (r_fs (apply_core no_fault p t)) q = None.
+Proof. exact apply_nothing_appears. Qed.
+
+Theorem C02_node_count : forall p t, plan_ok p t -> length (r_fs (apply_core no_fault p t)) = length t.
+Proof. exact apply_node_count. Qed.
+
+(* a file that is edited (and possibly moved, itself or with a directory above it) ends at its final path with the
+   reference splice of its ORIGINAL content and its mode *)
+Theorem C02_edited_file : forall p t h m c,
+  plan_ok p t -> In h (ap_hunks p) -> lookup t (ah_file h) = Some (File m c) ->
+  lookup (r_fs (apply_core no_fault p t)) (final_path (ap_renames p) (ah_file h))
+  = Some (File m (spec_splice c (sort_edits (edits_of (ap_hunks p) (ah_file h))))).
+Proof. exact apply_edited_file. Qed.
+
+(* the edit hypothesis of plan_ok in elementary terms, independent of the order in which the plan lists the hunks:
+   each recorded text is at its offsets, edits are non-empty and pairwise disjoint *)
+Theorem C02_hunks_wf : forall hs f c,
+  (forall h, In h hs -> ah_file h = f -> good_edit c (edit_of h)) ->
+  ForallOrdPairs (fun h1 h2 => ah_file h1 = ah_file h2 -> disjoint (edit_of h1) (edit_of h2)) hs ->
+  wf_edits c (sort_edits (edits_of hs f)) = true.
+Proof. exact hunks_wf. Qed.
+
+(* non-vacuity: a directory rename containing an edited file that is itself renamed, two bystanders *)
+Theorem C02_plan_ok_instance : plan_ok Witness.p0 Witness.t0.
+Proof. exact Witness.p0_ok. Qed.
+
+Print Assumptions C02_apply_is_spec.
+Print Assumptions C02_bystander_untouched.
+Print Assumptions C02_nothing_appears.
+Print Assumptions C02_node_count.
+Print Assumptions C02_edited_file.
+Print Assumptions C02_hunks_wf.
+Print Assumptions C02_plan_ok_instance.
 Print Assumptions C02_splice_is_spec.
 Print Assumptions C02_rename_stage_reaches_final_path.
 Print Assumptions C02_rename_stage_fs.
